@@ -44,6 +44,8 @@ type Conn struct {
 	fromReceived bool
 	recipients   []string
 	didAuth      bool
+
+	closed bool // Close has been called; guarded by locker
 }
 
 func newConn(c net.Conn, s *Server) *Conn {
@@ -160,6 +162,12 @@ func (c *Conn) Session() Session {
 	return c.session
 }
 
+func (c *Conn) isClosed() bool {
+	c.locker.Lock()
+	defer c.locker.Unlock()
+	return c.closed
+}
+
 func (c *Conn) setSession(session Session) {
 	c.locker.Lock()
 	defer c.locker.Unlock()
@@ -169,6 +177,8 @@ func (c *Conn) setSession(session Session) {
 func (c *Conn) Close() error {
 	c.locker.Lock()
 	defer c.locker.Unlock()
+
+	c.closed = true
 
 	if c.bdatPipe != nil {
 		c.bdatPipe.CloseWithError(ErrDataReset)
